@@ -15,7 +15,18 @@ Streams
            file); files the function opened must be closed at exhaustion and after generator.close()
   args     invalid file / cast / pattern raise TypeError before anything is opened (vs the model too)
   roundtrip  a file written by a loguru handler, parsed back with a regex mirroring its format,
-           recovers every record in order (all chunk sizes in a sample)
+           recovers every record in order (all chunk sizes in a sample, and the default chunk)
+  trace    (round 5, tie C for Parse/Trace.lean) the real event sequence of one use of the generator – open, every
+           read call, every item the consumer receives, the exception that reaches it, close – against `parseTrace`
+           of the Lean model, over sources × casts (also raising) × consumer limits (close() / dropping the
+           generator) × reads that raise × wrong-typed patterns × missing files × invalid arguments
+  fault    (round 5) DIRECT ORACLE on iterations that end some other way than plain exhaustion (judge_fault):
+           the file the function opened is closed and not used afterwards; the consumer received exactly the
+           beginning of the whole-text result
+  interleaved / large (round 5)  two generators alive at once; inputs of 30 KiB – 1 MiB with records longer than
+           the default chunk, parsed with the DEFAULT chunk (argument omitted)
+The three streams that need the Lean model (args, model, trace) are generators; `drive_streams` starts the driver
+once for all of them.
 """
 import gc
 import io
@@ -45,10 +56,12 @@ TRUSTED = [
     "the `re` engine is a parameter of the theorems (a scanner with the locality conditions (R),(P)); "
     "that a concrete (regex, text) pair satisfies them is decided empirically per case by the harness",
     "tools/extractors/parse_shape.py: statement-by-statement shape check of _find_iter/parse (fails closed)",
-    "generator protocol (`with` left on close()/exhaustion) is CPython's; the model only records the events",
+    "CPython's generator protocol is the shared model Py/Generators.lean (validated by C16's stream); that a `with` "
+    "statement calls __exit__ once on every exit of its body and that open().__exit__ closes are written into "
+    "parseAuto/openerAuto and tied by the event-trace stream",
 ]
 ASSUMPTIONS = ["chunk >= 1", "text files are decoded by open() defaults (the property speaks about the decoded content)",
-               "cast converters are total functions of the group value"]
+               "a cast converter that raises ends the iteration with that exception (the records before it are delivered)"]
 
 LINE_RX = r"(?P<l>[^\n]*\n|[^\n]+)"
 BLOCK_RX = r"(?P<a>[^\n]*)\n(?P<b>[^\n]*)\n"
